@@ -51,6 +51,60 @@ func driveChans(plan []M, out *Out, _ []string) {
 		for i := 1; i <= fill; i++ {
 			ch <- i
 		}
+		if op == "SendDeadlineRace" {
+			// rounds of SendTimeout(3ms) on an unbuffered channel whose receiver takes the value right around the deadline (offset
+			// swept), while background goroutines keep every processor busy so that the sender is not rescheduled at once.
+			// "returns true exactly when the value was handed to the channel": per round the answer must equal what the receiver saw.
+			rounds, bad, sent := num(c, "rounds"), 0, 0
+			stop := make(chan struct{})
+			for i := 0; i < 2*runtime.GOMAXPROCS(0); i++ {
+				go func() {
+					x := 0
+					for {
+						select {
+						case <-stop:
+							return
+						default:
+							x++
+						}
+					}
+				}()
+			}
+			for r := 0; r < rounds; r++ {
+				rc := make(chan int)
+				T := 3 * time.Millisecond
+				off := time.Duration(r%41-25) * 20 * time.Microsecond // -500us .. +300us
+				got := make(chan bool, 1)
+				t0 := time.Now()
+				go func() {
+					for time.Since(t0) < T+off {
+					}
+					end := t0.Add(T + 2*time.Millisecond)
+					for time.Now().Before(end) {
+						select {
+						case <-rc:
+							got <- true
+							return
+						default:
+						}
+					}
+					got <- false
+				}()
+				ok := chans.SendTimeout(rc, r, T)
+				g := <-got
+				if ok {
+					sent++
+				}
+				if ok != g {
+					bad++
+				}
+			}
+			close(stop)
+			e["n"], e["limit"], e["pending"] = rounds, sent, bad
+			e["panic"] = ""
+			out.Emit(e)
+			continue
+		}
 		if op == "RecvCloseRace" {
 			// an empty open channel, one RecvTimeout(3ms) caller, and a goroutine that closes the channel right around that
 			// deadline (offset swept over the rounds): whatever wins, the answer is (zero, false)
